@@ -78,14 +78,6 @@ impl MemStream {
         self.tx = None;
     }
 
-    /// Sends without going through the logged `Sink` path (used by scripted peers).
-    pub fn push(&mut self, b: Bytes) -> bool {
-        match &self.tx {
-            Some(tx) => tx.send(b).is_ok(),
-            None => false,
-        }
-    }
-
     /// Records the op and decides whether it fails.
     fn op(&mut self, kind: &'static str, tag: u8) -> Result<(), AnyError> {
         let mut fail = self.broken;
